@@ -39,6 +39,8 @@ UNSUP = [
     "switch (u0) { case 1: u1 = 2; break; default: u1 = 3; }", "goto LL;", "int q0 = u0;", "int *pp;", "int aa[3];",
     "u0 = u1 + u2 + u1;", "u0 = u1 * (u2 + 1);", "u0 = *pp;", "*pp = u0;", "u0 = &u1;", "for (;;) { u0 = u0 + 1; }",
     "for (u0 = 0; u0 < 10; u0++) { u1 = u1 + 1; }", "u0 = u1 / u2;", "u0 = u1 % 2;", "u0 = st.fld;", "u0 = (u1 < u2);",
+    "for (u0 = 0; u0 < u1; u0++) { u1 = u1 + 1; }", "for (u0 = 0; u0 < u1; u0++) { u2 = u2 + u1; }",     # guard written / read in the body
+    "for (u0 = 0; u0 < u1; u0++) u1 = u2;",
     "u0 = ~u1;", "u0 = h(u1) + 1;", "u0 = sizeof(int);", "u0 = (int)(int)u1;", "u0 = u1 = u2;", "u0 = u1 << 1;",
 ]
 UNSUP_D12 = ["typedef int TT;", "#pragma omp parallel\n"]       # block-level typedef / pragma (see C19 D12)
@@ -275,6 +277,24 @@ def check_case(src, plan):
     except Exception as e:
         fail(f"strict(loop): LoopAnalysis.run(strict=True) raises {type(e).__name__}", ["strict-loop", "raises", type(e).__name__] + kinds,
              "no exception", vlib.exc_sig(e))
+    # one AST object handed to several calls: a coverage report and a (refusing) strict run come first, then the default run must still
+    # drop exactly the inserted statements (its result is the original function's result)
+    if not (isinstance(r0["func"], dict) and "exc" in r0["func"]) and r0["func"] != "timeout":
+        try:
+            a5 = deepcopy(ast2)
+            logging_off = Coverage(a5.ext[-1])
+            logging_off.report()
+            vlib.with_timeout(lambda: Analysis.run(a5, strict=True), 15)
+            r5 = vlib.with_timeout(lambda: Analysis.run(a5), 15)
+            got = strip_times(r5.relations[name].to_dict()) if name in r5.relations else None
+            if got != r0["func"]:
+                fail(f"reuse: after Coverage.report() and a strict run on the SAME tree, the default run no longer gives the original result "
+                     f"(inserted {kinds})", ["reuse-result-differs"] + kinds, r0["func"], got)
+        except vlib.CaseTimeout:
+            pass
+        except Exception as e:
+            fail(f"reuse: report / strict / default run on one tree raises {type(e).__name__}", ["reuse", "raises", type(e).__name__] + kinds,
+                 "no exception", vlib.exc_sig(e))
     return fails
 
 
@@ -389,6 +409,82 @@ def real_syntax_check(node, strict):
         return None
 
 
+# ---- same-layout twins analysed one after the other in one process ------------------------------------------
+TWIN_BODIES = [("{ y = y + x; }", "{ n = y + x; }"), ("{ x = x * y; }", "{ x = x * n; }"), ("y = y + x;", "n = n + x;"),
+               ("{ if (x) { y = x; } }", "{ if (x) { y = n; } }")]       # (a guard read only in a CONDITION does not count: conditions are not analysed)
+TWIN_HEADERS = [("for (i = 0; i < n; i++)", "for (i = 0; i < n; i++)"),      # same header, only the body differs
+                ("for (i = 0; i < n; i++)", "for (i = 0; i < i; i++)"),      # counted / guard is the iterator (not a counted loop)
+                ("for (i = n; i > 0; i--)", "for (i = n; i > x; i--)")]
+
+
+def twin_sources(rng):
+    """(A, B, BASE): A has a counted for-loop; B differs from A only INSIDE that loop, which is not a counted loop any more (guard
+    used in its body / two guard candidates), every token before the loop keeps its line and column; BASE is B without the loop."""
+    pre = rng.choice(["    x = x + y;\n", "    y = x;\n    x = y + y;\n", ""])
+    post = rng.choice(["    x = y;\n", "", "    y = y * x;\n"])
+    ha, hb = rng.choice(TWIN_HEADERS)
+    ba, bb = rng.choice(TWIN_BODIES)
+    if ha == hb and ba == bb:
+        bb = "{ n = y + x; }"
+    if ha != hb:
+        bb = ba if rng.random() < 0.5 else bb
+    ind = rng.choice(["    ", "  ", "\t"])
+    head = "void f(int x, int y, int n, int i)\n{\n" + pre
+    A = head + ind + ha + " " + ba + "\n" + post + "}\n"
+    B = head + ind + hb + " " + bb + "\n" + post + "}\n"
+    BASE = head + "\n" + post + "}\n"
+    return A, B, BASE
+
+
+def check_twins(A, B, BASE, order):
+    """analyse A and B in this process in the given order; B must be treated exactly as on its own: rejected by the gate, the loop
+    dropped (tree = BASE's tree), same result as BASE, refused in strict mode; A must stay fully supported."""
+    from pymwp import Coverage, Analysis
+    fails = []
+    inp = {"twin": {"A": A, "B": B, "BASE": BASE, "order": order}}
+
+    def fail(what, sig, exp, obs):
+        fails.append({"what": what, "sig": ["C07", "twin"] + sig, "base": ["twin"] + sig, "input": inp, "expected": exp, "observed": obs})
+    base_ast = S.parse(BASE)
+    base_tree = D.dump(base_ast.ext[-1])
+    rbase = run_modes(base_ast, "f")
+
+    def do_A():
+        a = S.parse(A)
+        if not Coverage(deepcopy(a.ext[-1])).full:
+            fail("twin: the supported twin is rejected by the gate", ["A-rejected", order], "full", "not full")
+        run_modes(a, "f")
+
+    def do_B():
+        b = S.parse(B)
+        g = deepcopy(b.ext[-1])
+        c = Coverage(g)
+        if c.full:
+            fail("twin: a for-loop that is not a counted loop is accepted by the gate after a look-alike at the same place was analysed",
+                 ["B-accepted", order], "not full", "full")
+        c.ast_mod()
+        if D.dump(g) != base_tree:
+            fail("twin: removal pass on the second program does not give the function without the loop", ["B-removal", order], D.to_c(base_ast.ext[-1]), D.to_c(g))
+        rb = run_modes(b, "f")
+        for key in ("func", "func_fin"):
+            if rb[key] != rbase[key] and "timeout" not in (rb[key], rbase[key]):
+                fail(f"twin: result({key}) of the second program is not the result of the function without the loop", ["B-result-" + key, order],
+                     rbase[key], rb[key])
+        for fin in (False, True):
+            try:
+                rs = Analysis.run(S.parse(B), strict=True, fin=fin)
+                if "f" in rs.relations:
+                    fail(f"twin: strict mode analyses the second program (fin={fin})", ["B-strict-analysed", order], "absent", "present")
+            except Exception as e:
+                fail(f"twin: strict run raises {type(e).__name__}", ["B-strict-raises", order], "absent", vlib.exc_sig(e))
+    try:
+        for step in order:
+            (do_A if step == "A" else do_B)()
+    except Exception as e:
+        fail(f"twin: harness run raises {type(e).__name__}: {e}", ["raises", type(e).__name__], "no exception", vlib.exc_sig(e))
+    return fails
+
+
 def run(ctx):
     vlib.import_pymwp()
     from pymwp import Coverage, FindLoops
@@ -472,6 +568,24 @@ def run(ctx):
             seen.add(tuple(g["sig"]))
             g["shrunk_from"] = {"src": src, "plan": [list(p) for p in plan]}
             failing.append(g)
+    # same-layout twins, both orders, in this process
+    ntw = 0
+    for _ in range(ctx.n(24, 200)):
+        A, B, BASE = twin_sources(rng)
+        for order in ("AB", "BA", "ABAB"):
+            ntw += 1
+            try:
+                fs = check_twins(A, B, BASE, order)
+            except Exception as e:
+                mism.append(f"harness error on twins {A!r} {B!r}: {type(e).__name__}: {e}")
+                continue
+            for f in fs:
+                key = tuple(f["sig"])
+                if key not in seen:
+                    seen.add(key)
+                    failing.append(f)
+    dist["twin_histories"] = ntw
+    stats["evaluations"] += ntw
     stats["distribution"] = dist
     nontriv = sum(1 for s, p in todo if p)
     # ---- correspondence ----------------------------------------------------------------------
@@ -553,7 +667,11 @@ def run(ctx):
 def replay(ctx, data):
     vlib.import_pymwp()
     inp = data.get("input", data)
-    fs = check_case(inp["src"], [tuple(p) for p in inp["plan"]]) or []
+    if "twin" in inp:
+        t = inp["twin"]
+        fs = check_twins(t["A"], t["B"], t["BASE"], t["order"])
+    else:
+        fs = check_case(inp["src"], [tuple(p) for p in inp["plan"]]) or []
     want = data.get("sig")
     for f in fs:
         if want is None or f["sig"] == want:
